@@ -16,6 +16,7 @@ class JumpTrace:
         self.ev: list[tuple] = []  # (kind, dict)
         self.impl: Any = None
         self.target_times: list[float] | None = None
+        self.checked = False
 
     # ---- installation ------------------------------------------------------------
     def install(self, rb: Any) -> None:
@@ -45,6 +46,13 @@ class JumpTrace:
         def mk(kind: str):
             def before(impl: Any, *a: Any, **k: Any) -> Any:
                 if isinstance(impl, noisy):
+                    if kind == "sweep" and not self.checked:
+                        # the state the property itself names (C18 'state'): without it no verdict is possible - say
+                        # so (exit 2) instead of judging a trace full of NaNs
+                        for attr in ("norm_gap_before_jump", "jump_threshold", "target_time", "target_times"):
+                            if not hasattr(impl, attr):
+                                raise HarnessError(f"{type(impl).__name__}.{attr} not found (needed for the C18 trace)")
+                        self.checked = True
                     self.ev.append((kind + ":before", snap(impl)))
                 return None
 
